@@ -10,7 +10,8 @@ import ast
 from .. import terms as T
 from ..common import compare_with_reference, loc, vn_paths, vn_ref
 from ..effects import Analyzer, Effects
-from ..model import is_self_attr, walk_no_nested, unparse
+from ..model import Unrecognised, is_self_attr, walk_no_nested, unparse
+from ..vn import VN, State
 
 CG = "sigpy.alg.ConjugateGradient"
 
@@ -146,14 +147,28 @@ def check(run, M, tier):
 
 
 def _enclosing_else_of_max_iter_gt_1(func, node):
-    """is `node` inside the else-arm of `if max_iter > 1` (or the body of `if max_iter <= 1`)?"""
+    """is `node` executed only when max_iter <= 1?  (else-arm of a test equal to `max_iter > 1`, or body of a test equal to its negation;
+    tests are compared in the comparison normal form, so `1 < max_iter`, `not max_iter > 1`, `max_iter <= 1` ... are all recognised)"""
+    from ..vn import negate
+    vn = VN(real={"max_iter", "self.max_iter"})
+
+    def norm(src_or_node):
+        e = ast.parse(src_or_node, mode="eval").body if isinstance(src_or_node, str) else src_or_node
+        try:
+            return vn._as_term(vn.ev(e, State()))
+        except Unrecognised:
+            return None
+    multi = [norm("max_iter > 1"), norm("self.max_iter > 1"), norm("max_iter >= 2"), norm("self.max_iter >= 2")]
+    single = [negate(t) for t in multi] + [norm("max_iter == 1"), norm("self.max_iter == 1")]
     for n in walk_no_nested(func.node):
         if isinstance(n, ast.If):
-            t = unparse(n.test).replace(" ", "")
+            t = norm(n.test)
+            if t is None:
+                continue
             in_else = any(node is x or node in list(ast.walk(x)) for x in n.orelse)
             in_body = any(node is x or node in list(ast.walk(x)) for x in n.body)
-            if t in ("max_iter>1", "1<max_iter", "self.max_iter>1") and in_else:
+            if in_else and any(t == m for m in multi):
                 return True
-            if t in ("max_iter<=1", "max_iter<2", "max_iter==1") and in_body:
+            if in_body and any(t == m for m in single):
                 return True
     return False
